@@ -20,7 +20,7 @@ case "$ID" in
   C07) NEED_RACE=1 ;;
 esac
 if [ "$TIER" = thorough ]; then case "$ID" in C02|C10|C12|C16) NEED_RACE=1 ;; esac; fi
-case "$ID" in C08|C13|C14|C15|C18|C19) NEED_BIN=1 ;; esac
+case "$ID" in C08|C10|C13|C14|C15|C18|C19) NEED_BIN=1 ;; esac
 
 if [ $NEED_RACE = 1 ]; then
   ( cd "$ROOT/harness" && go build -race -tags verif -o "$ROOT/bin/check-race" ./cmd/check ) >>"$LOG.build" 2>&1 || { cat "$LOG.build"; fail_build check-race; }
